@@ -279,7 +279,7 @@ fn parse_at_rule(
                 );
             }
             let r = input.try_parse::<_, _, ParseError<()>>(|input| {
-                let rel_path = input.expect_string_cloned()?;
+                let rel_path = input.expect_url_or_string()?;
                 let mut close_stack = vec![];
                 let mut has_media = false;
                 while let Ok(peek) = input.peek() {
